@@ -398,6 +398,10 @@ where
     };
     let exp = &case["out"];
     ctx.check("C06", "no panic", inst, obs.get("panic").is_none() && obs["str"].get("panic").is_none(), &json!("value or error"), &obs);
+    if inst == "Purl" {
+        ctx.check("C08", "the type's own rule decides whether the builder accepts (maven needs a namespace, nothing else is refused)", inst,
+                  obs["ok"] == exp["ok"], exp, &obs);
+    }
     if exp["ok"] == json!(true) {
         if ctx.check("C09", "build succeeds when name, type, type rule, keys and checksum are fine", inst, obs["ok"] == json!(true), exp, &obs) {
             let okv = ctx.check("C09", "accessors return what was set (normalised)", inst, obs["v"] == exp["v"], exp, &obs);
